@@ -77,6 +77,15 @@ pub fn gen_case(seed: u64, family: &str, tier: Tier) -> Case {
         simcfg.p_stay = 0.5;
         simcfg.atomic_load_every = 1;
     }
+    if family == "load" {
+        // the application - its speed and grade tables among the rest - is built inside the explored phase, from
+        // a disk that hands out its files in small pieces (short reads: always legal, never a reason to fail).
+        // What the vehicles then record per edge is judged as in the other families (round 6)
+        simcfg.faults = crate::sim::F_SHORT_READ;
+        simcfg.io_fault_rate = *r.pick(&[0.1, 0.5, 0.9]);
+        // (an application that finds the wall clock set back while it loads refuses to start: DESIGN.md, observations)
+        simcfg.wall_step_rate = 0.0;
+    }
     let workers = r.range(1, 6) as usize;
     if batch.len() >= 2 && r.chance(0.25) {
         // two caller threads share the application and its prediction caches: each runs half of the queries
@@ -421,6 +430,9 @@ impl Check for C08 {
             f.extend(["schedule", "dense"]);
         }
         f.push("known-stale-label"); // 41 entries
+        for k in [4, 14, 24, 34] {
+            f[k] = "load";
+        }
         f
     }
     fn default_runs(&self, tier: Tier) -> u64 {
@@ -433,9 +445,13 @@ impl Check for C08 {
         gen_case(seed, family, tier)
     }
     fn run(&self, case: &Case, fatal_fd: i32) -> ChildResult {
-        let obs = execute(case, ExecOpts { reference: true, trace: false, log_clock: false, explore_build: false }, Box::new(NoInstr), fatal_fd);
+        let obs = execute(case, ExecOpts { reference: true, trace: false, log_clock: false, explore_build: case.family == "load" }, Box::new(NoInstr), fatal_fd);
         let (violations, mut reach, nontrivial) = judge(case, &obs);
         reach.insert("preemptions".into(), obs.stats.preemptions);
+        if case.family == "load" {
+            reach.insert("applications_built_under_short_reads".into(), 1);
+            reach.insert("short_reads_while_building".into(), obs.stats.faults.get("short_read").copied().unwrap_or(0));
+        }
         reach.insert("futex_waits".into(), obs.stats.futex_waits);
         reach.insert("two_caller_threads".into(), case.params.get("two_callers").and_then(|x| x.as_bool()).unwrap_or(false) as u64);
         let caches: Vec<Value> = match &case.world.traversal {
